@@ -6,6 +6,7 @@ import (
 	"flag"
 	"fmt"
 	"log"
+	"math"
 	"net/http"
 	"regexp"
 	"runtime"
@@ -112,6 +113,9 @@ func parse(args []string) (cmdline []string, path string, version bool, err erro
 	}
 	return cmdline, path, false, nil
 }
+
+// maxGlobCacheSize is the largest accepted value of glob.cache.size.
+const maxGlobCacheSize = 1 << 24
 
 func load(cmdline, environ, envprefix []string, props *properties.Properties) (cfg *Config, err error) {
 	cfg = &Config{}
@@ -369,6 +373,18 @@ func load(cmdline, environ, envprefix []string, props *properties.Properties) (c
 	// first lookup of a host pattern panic
 	if cfg.GlobCacheSize <= 0 {
 		return nil, fmt.Errorf("glob.cache.size must be greater than 0")
+	}
+
+	// the cache is allocated up front
+	if cfg.GlobCacheSize > maxGlobCacheSize {
+		return nil, fmt.Errorf("glob.cache.size must not exceed %d", maxGlobCacheSize)
+	}
+
+	// prometheus panics on the first observation otherwise
+	for i, b := range cfg.Metrics.Prometheus.Buckets {
+		if math.IsNaN(b) || (i > 0 && b <= cfg.Metrics.Prometheus.Buckets[i-1]) {
+			return nil, fmt.Errorf("metrics.prometheus.buckets must be in increasing order")
+		}
 	}
 
 	if cfg.Registry.Consul.AllowStale && cfg.Registry.Consul.RequireConsistent {
